@@ -54,7 +54,8 @@ func (r *ReceiverInterceptor) BindRemoteStream(
 			if attr == nil {
 				attr = make(interceptor.Attributes)
 			}
-			header, err := attr.GetRTPHeader(bytes)
+			// parse only what was read: the rest of the buffer may hold stale data
+			header, err := attr.GetRTPHeader(bytes[:i])
 			if err != nil {
 				return 0, nil, err
 			}
